@@ -115,6 +115,10 @@ def _one(item):
         return ("raised", short_exc(e))
     if must_raise:
         return ("bad", "series ports wider than one bit were accepted")
+    return judge(pkg, exp, u, n, gen)
+
+
+def judge(pkg, exp, u, n, gen):
     try:
         rdev, rpart = refsem.R(exp)
         odev, opart = observe.O_pkg(pkg, None)
@@ -158,6 +162,43 @@ def _one(item):
     return ("ok", None)
 
 
+def _seq(item):
+    """History: the generator is first run on another cell *of the same name* (or on the same cell, the result then being
+    edited); the second result must be what it is without that history."""
+    import hdl21 as h
+    from hdl21.generators import Series, Wrapper
+    from ..build import build, target_of
+
+    gen, first, second, n = item
+    h.generator.cache.reset()
+
+    def unit_of(uname):
+        exp = expected_design(uname, "a", "b", n, wrapper=(gen == "wrapper"))
+        base = dict(exp)
+        base["modules"] = {k: v for k, v in exp["modules"].items() if k != "Ser"}
+        base["top"] = "UnitM"
+        unit = target_of(base, UNITS[uname]["target"], build(base))
+        unit.name = "Cell"
+        return unit, exp
+
+    def call(unit):
+        return Wrapper(unit) if gen == "wrapper" else Series(unit=unit, conns=("a", "b"), nser=n)
+
+    try:
+        u1, _e = unit_of(first)
+        m1 = call(u1)
+        if first == second:
+            m1.extra_port_added_later = h.Input()  # the documented use: a wrapper is a starting point for edits
+            u2, exp = u1, _e
+        else:
+            u2, exp = unit_of(second)
+        m2 = call(u2)
+        pkg = h.to_proto(m2)
+    except Exception as e:
+        return ("raised", short_exc(e))
+    return judge(pkg, exp, UNITS[second], n, gen)
+
+
 def run(ctx):
     N = 4 if ctx.quick else 8
     items = []
@@ -183,13 +224,24 @@ def run(ctx):
             wide = dict(UNITS[it[1]]["ports"]).get(it[2], 1) != 1 or dict(UNITS[it[1]]["ports"]).get(it[3], 1) != 1
             ctx.violation(dict(gen=it[0], unit=it[1], nser=("1" if it[4] == 1 else "n>1"), what=(detail.split(":")[0] if status != "bad" else detail.split(":")[0][:40]), wide=wide),
                           dict(item=list(it)), detail)
+    sitems = [(g, a, b, n) for g, ns in (("wrapper", (1,)), ("series", (1, 2, 3))) for n in ns for a in ("ModBus", "ModBundle") for b in ("ModBus", "ModBundle")
+              if g == "wrapper" or a != b]  # Series is a memoising generator: the same unit gives the same (shared) module
+    for it in sitems:
+        status, detail = _seq(it)
+        ctx.count(states=1, transitions=4, traces_validated_against_impl=1)
+        ctx.fam("after_same_named_cell:" + it[0], **{status: 1})
+        ctx.outcome(status + ":seq:" + it[0] + ":" + str(detail)[:20])
+        if status != "ok":
+            ctx.violation(dict(gen=it[0], unit=it[2], nser=("1" if it[3] == 1 else "n>1"), what="after " + it[1] + ": " + str(detail).split(":")[0][:40], wide=False), dict(seq=list(it)), detail)
     ctx.sample(dict(item=list(items[5]), expected=expected_design(items[5][1], items[5][2], items[5][3], items[5][4])))
     ctx.sample(dict(item=list(items[-1])))
     ctx.assume("the chain model is written directly as a design description; array elements are named units_k as documented")
 
 
 def replay(body):
-    it = body["case"]["item"]
-    r = _one(tuple(it))
+    if "seq" in body["case"]:
+        r = _seq(tuple(body["case"]["seq"]))
+    else:
+        r = _one(tuple(body["case"]["item"]))
     print("replay:", r)
     return 0 if r[0] == "ok" else 1
